@@ -70,7 +70,7 @@ Theorem C11_whole_blocks_before_do_not_matter :
 Proof. exact df_run_far. Qed.
 Print Assumptions C11_whole_blocks_before_do_not_matter.
 Example C11_shift_nonvacuous : len (zeros 32768) = 1 * blockSize.
-Proof. reflexivity. Qed.
+Proof. vm_compute. reflexivity. Qed.
 
 (* The chunk decoder never panics, whatever bytes it is given. *)
 Theorem C11_decode_chunk_total :
